@@ -10,6 +10,7 @@ import (
 	"image/gif"
 	"image/png"
 	"io"
+	"sync"
 )
 
 // Wuffs pixel formats used as decode destinations.
@@ -354,11 +355,45 @@ func btoi(b bool) int {
 // PNGLevels are the image/png compression levels.
 var PNGLevels = []png.CompressionLevel{png.DefaultCompression, png.NoCompression, png.BestSpeed, png.BestCompression}
 
+// pngBufPool lets image/png reuse its zlib writers (a compress/flate writer is a ~650 KiB object; allocating one
+// per encoded image makes the garbage collector the bottleneck of the image phase).
+type pngBufPool struct {
+	mu   sync.Mutex
+	free []*png.EncoderBuffer
+}
+
+func (p *pngBufPool) Get() *png.EncoderBuffer {
+	p.mu.Lock()
+	defer p.mu.Unlock()
+	if n := len(p.free); n > 0 {
+		b := p.free[n-1]
+		p.free = p.free[:n-1]
+		return b
+	}
+	return nil
+}
+
+func (p *pngBufPool) Put(b *png.EncoderBuffer) {
+	p.mu.Lock()
+	p.free = append(p.free, b)
+	p.mu.Unlock()
+}
+
+var pngPools sync.Map // compression level -> *pngBufPool (image/png rebuilds the zlib writer when the level changes)
+
+func pngPoolFor(level png.CompressionLevel) *pngBufPool {
+	if p, ok := pngPools.Load(level); ok {
+		return p.(*pngBufPool)
+	}
+	p, _ := pngPools.LoadOrStore(level, &pngBufPool{})
+	return p.(*pngBufPool)
+}
+
 // PNGCase encodes one image with image/png and derives the expected pixels from image/png's own decode.
 func PNGCase(kind, pattern string, w, h int, level png.CompressionLevel) (*ImageCase, error) {
 	img := MakeImage(kind, pattern, w, h)
 	var buf bytes.Buffer
-	enc := png.Encoder{CompressionLevel: level}
+	enc := png.Encoder{CompressionLevel: level, BufferPool: pngPoolFor(level)}
 	if err := enc.Encode(&buf, img); err != nil {
 		return nil, err
 	}
